@@ -49,12 +49,15 @@ def out_expr(v):
     raise ValueError(v)
 
 
-def tree(idx, outs, m, h, depth=0):
+def tree(idx, outs, m, h, depth=0, leaf=None, preds=None):
+    leaf = leaf or out_expr
     vals = set(outs[i] for i in idx)
     if len(vals) == 1:
-        return out_expr(next(iter(vals))), 1
+        return leaf(next(iter(vals))), 1
     best = None
     for p, pv in enumerate(PRED_VALUES):
+        if preds is not None and PREDICATES[p][0] not in preds:
+            continue
         t = [i for i in idx if pv[i]]
         f = [i for i in idx if not pv[i]]
         if not t or not f:
@@ -67,8 +70,8 @@ def tree(idx, outs, m, h, depth=0):
     if best is None or depth > 12:
         raise ValueError('not separable')
     _, p, t, f = best
-    a, na = tree(t, outs, m, h, depth + 1)
-    b, nb = tree(f, outs, m, h, depth + 1)
+    a, na = tree(t, outs, m, h, depth + 1, leaf, preds)
+    b, nb = tree(f, outs, m, h, depth + 1, leaf, preds)
     cond = PREDICATES[p][1].format(m=m, h=h)
     return 'if %s { %s } else { %s }' % (cond, a, b), na + nb
 
@@ -87,3 +90,11 @@ def spec_body(table, keycodes, names):
     for expr, keys in groups.items():
         arms.append('            %s => %s,' % (' | '.join('crate::KeyCode::%s' % x for x in keys), expr))
     return '{\n        match %s {\n%s\n        }\n    }' % (k, '\n'.join(arms)), leaves
+
+
+def pred_body(bits):
+    """`bits`: string of 512 '0'/'1' (cellcheck::all_mods order): a decision tree over the nine raw flags of `self`"""
+    if len(bits) != 512 or set(bits) - set('01'):
+        raise ValueError('bad predicate table')
+    expr, n = tree(list(range(512)), bits, 'self', '_', leaf=lambda v: 'true' if v == '1' else 'false', preds=set(FLAGS))
+    return '{ %s }' % expr
